@@ -822,6 +822,23 @@ class TermAnalysis(Analysis):
             return const(len(t[2][0][1]))
         if t[0] == "call" and t[1] == ("ext", "len") and len(t[2]) == 1 and not t[3] and is_const(t[2][0]) and isinstance(t[2][0][1], (bytes, str)):
             return const(len(t[2][0][1]))
+        if t[0] == "call" and t[1][0] == "meth" and t[1][2] == "format" and is_const(t[1][1]) and isinstance(t[1][1][1], str) and not t[3]:
+            # "a{}b{}".format(x, y) with automatic fields only is the f-string f"a{x}b{y}"
+            import string
+            try:
+                fields = list(string.Formatter().parse(t[1][1][1]))
+            except ValueError:
+                fields = None
+            if fields is not None and all(fn in (None, "") and not spec and conv is None for _lit, fn, spec, conv in fields) \
+                    and sum(1 for _l, fn, _s, _c in fields if fn == "") == len(t[2]):
+                parts, k = [], 0
+                for lit, fn, _spec, _conv in fields:
+                    if lit:
+                        parts.append(const(lit))
+                    if fn == "":
+                        parts.append(t[2][k])
+                        k += 1
+                return ("fstr", tuple(parts))
         if t[0] == "call" and t[1] == ("ext", "int") and len(t[2]) == 1 and len(t[3]) == 1 and t[3][0][0] == "base":
             return ("call", t[1], (t[2][0], t[3][0][1]), ())                # int(x, base=b) is int(x, b)
         if t[0] == "call" and t[1] == ("ext", "dict") and not t[2] and t[3] and all(isinstance(k, str) for k, _v in t[3]):
@@ -838,13 +855,32 @@ class TermAnalysis(Analysis):
             r = self.inline(e, t, st)
             if r is not None:
                 return r
+        if t[0] == "call" and t[1][0] == "dyn" and t[1][1][0] == "localfunc" and t[1][1][1] in self._local_funcs:
+            # a nested function that closes over nothing of the enclosing function is a helper like any other
+            lf = self._local_fn(t[1][1][1])
+            if lf is not None:
+                r = self.inline(e, ("call", ("func", lf.qual), t[2], t[3]), st, callee=lf)
+                if r is not None:
+                    return r
         return t
 
-    def inline(self, e: ast.Call, t: Term, st: State) -> Optional[Term]:
+    def _local_fn(self, name: str) -> Optional[FuncInfo]:
+        node = self._local_funcs[name]
+        if not isinstance(node, ast.FunctionDef):
+            return None
+        a = node.args
+        own = {x.arg for x in a.posonlyargs + a.args + a.kwonlyargs} | ({a.vararg.arg} if a.vararg else set()) | ({a.kwarg.arg} if a.kwarg else set())
+        own |= {n.id for n in ast.walk(node) if isinstance(n, ast.Name) and isinstance(n.ctx, ast.Store)}
+        free = {n.id for n in ast.walk(node) if isinstance(n, ast.Name) and isinstance(n.ctx, ast.Load)} - own
+        if free & (set(self.assigned) | set(self.param_names)) or any(isinstance(n, (ast.Nonlocal, ast.Global, ast.Yield, ast.YieldFrom, ast.Lambda)) for n in ast.walk(node)):
+            return None
+        return FuncInfo(name=name, qual=f"{self.fn.qual}.<locals>.{name}", module=self.m, node=node, cls=None, kind="function")
+
+    def inline(self, e: ast.Call, t: Term, st: State, callee: Optional[FuncInfo] = None) -> Optional[Term]:
         """See through a helper the rules do not know (extracted by a refactoring): its return value replaces the call,
         its guard conditions join the caller's path condition, its raises become raises of the calling statement and
         its stores to `self` / mutated arguments are applied to the caller's environment."""
-        callee = self.prog.funcs[t[1][1]]
+        callee = callee or self.prog.funcs[t[1][1]]
         if self.inline_depth >= 4 or callee.qual == self.fn.qual or callee.is_async and any(isinstance(n, (ast.Yield, ast.YieldFrom)) for n in ast.walk(callee.node)):
             return None
         amap = bind_args(callee, t[2], t[3])
